@@ -66,3 +66,41 @@ package keys
 //@   ensures [guarded] err == nil ==> decrypt_ok(armor, decryptPassphrase)
 //@   ensures [stored] err == nil ==> decrypt_ok(kp.PrivKeyArmor, encryptPassphrase) && (forall p string :: {decrypt_ok(kp.PrivKeyArmor, p)} decrypt_ok(kp.PrivKeyArmor, p) ==> p == encryptPassphrase)
 //@   ensures [failed] err != nil ==> kbdb.writes == old(kbdb.writes)
+
+// C19 (file-backed keybase): every lazyKeybase method opens the database and forwards to dbKeybase; the contract of
+// each forwarder is the contract of the method it forwards to, stated over its OWN parameters - a forwarder that
+// passes them in another order, or to another method, fails it
+//@ func (lkb lazyKeybase) ImportPrivKey(armor, decryptPassphrase, encryptPassphrase string) (kp KeyPair, err error)
+//@   props C19
+//@   modifies kbdb.writes, kbdb.op
+//@   ensures [guarded] err == nil ==> decrypt_ok(armor, decryptPassphrase)
+//@   ensures [stored] err == nil ==> decrypt_ok(kp.PrivKeyArmor, encryptPassphrase) && (forall p string :: {decrypt_ok(kp.PrivKeyArmor, p)} decrypt_ok(kp.PrivKeyArmor, p) ==> p == encryptPassphrase)
+//@   ensures [failed] err != nil ==> kbdb.writes == old(kbdb.writes)
+//@
+//@ func (lkb lazyKeybase) ExportPrivKeyEncryptedArmor(address types.Address, decryptPassphrase, encryptPassphrase, hint string) (armor string, err error)
+//@   props C19
+//@   ensures err == nil ==> kb_present(address) && decrypt_ok(kb_armor(address), decryptPassphrase)
+//@   ensures [export-pass] err == nil ==> decrypt_ok(armor, encryptPassphrase) && (forall p string :: {decrypt_ok(armor, p)} decrypt_ok(armor, p) ==> p == encryptPassphrase)
+//@   ensures kbdb.writes == old(kbdb.writes)
+//@
+//@ func (lkb lazyKeybase) Delete(address types.Address, passphrase string) (err error)
+//@   props C19
+//@   modifies kbdb.writes, kbdb.op
+//@   ensures [guarded] kbdb.writes != old(kbdb.writes) ==> kb_present(address) && decrypt_ok(kb_armor(address), passphrase)
+//@   ensures [failed] err != nil ==> kbdb.writes == old(kbdb.writes)
+//@
+//@ func (lkb lazyKeybase) Update(address types.Address, oldpass string, newpass string) (err error)
+//@   props C19
+//@   modifies kbdb.writes, kbdb.op
+//@   ensures [guarded] kbdb.writes != old(kbdb.writes) ==> kb_present(address) && decrypt_ok(kb_armor(address), oldpass)
+//@   ensures [failed] err != nil ==> kbdb.writes == old(kbdb.writes)
+//@
+//@ func (lkb lazyKeybase) Sign(address types.Address, passphrase string, msg []byte) (sig []byte, pub crypto.PublicKey, err error)
+//@   props C19
+//@   ensures err == nil ==> kb_present(address) && decrypt_ok(kb_armor(address), passphrase)
+//@   ensures kbdb.writes == old(kbdb.writes)
+//@
+//@ func (lkb lazyKeybase) ExportPrivateKeyObject(address types.Address, passphrase string) (priv crypto.PrivateKey, err error)
+//@   props C19
+//@   ensures err == nil ==> kb_present(address) && decrypt_ok(kb_armor(address), passphrase)
+//@   ensures kbdb.writes == old(kbdb.writes)
